@@ -87,11 +87,17 @@ class Group:
         else:
             ret = None
 
-        for t in target_iter(target, scope):
-            last, ret = ret, scope[glom](t, self.spec, scope)
-            if ret is STOP:
-                return last
-        return ret
+        try:
+            for t in target_iter(target, scope):
+                last, ret = ret, scope[glom](t, self.spec, scope)
+                if ret is STOP:
+                    return last
+            return ret
+        finally:
+            # the accumulators belong to this Group: the next step of an
+            # enclosing Group's chain (which chains onto this scope) goes on
+            # with its own
+            del scope.maps[0][ACC_TREE], scope.maps[0][CUR_AGG]
 
     def __repr__(self):
         cn = self.__class__.__name__
